@@ -5,7 +5,9 @@
 (* Programs are emitted as source lines; the faulted line carries the marker `# flt`. *)
 EXTENDS MSTypes, Json
 
-Contexts == {"module", "fn", "method", "elif", "lib"}
+Contexts == {"module", "fn", "method", "elif", "lib", "dead_ret", "dead_break", "dead_cont"}
+\* dead_*: the site is a statement that can never run - it follows an unconditional `return` / `break` / `continue` in the same
+\* block.  A position that is never reached is still a typed position of the program.
 M == "  # flt"
 
 (* type-directed sites: lines(expr) for an expression text of the supplied type, declared for expected type T *)
@@ -46,6 +48,18 @@ Fixed == {
   [name |-> "too_many_args0", bad |-> <<"flt = ifn(1)" \o M>>, good |-> <<"flt = ifn()">>],
   [name |-> "missing_return_value", bad |-> <<"flt = fn() -> int { return  }" \o M>>, good |-> <<"flt = fn() -> int { return 1 }">>],
   [name |-> "value_in_void_fn", bad |-> <<"flt = fn() { return 5 }" \o M>>, good |-> <<"flt = fn() { n = 5 }">>],
+  \* a value returned from a block of a function without result type - also when that function is nested in one that has a
+  \* result type (contexts fn / method): the block owes nothing to the enclosing function
+  [name |-> "value_in_void_fn_if", bad |-> <<"flt = fn(c: bool) { if c { return 5 } }" \o M>>, good |-> <<"flt = fn(c: bool) { if c { n = 5 } }">>],
+  [name |-> "value_in_void_fn_else", bad |-> <<"flt = fn(c: bool) { if c { n = 5 } else { return 5 } }" \o M>>, good |-> <<"flt = fn(c: bool) { if c { n = 5 } else { n = 6 } }">>],
+  [name |-> "value_in_void_fn_while", bad |-> <<"flt = fn(c: bool) { while c { return 5 } }" \o M>>, good |-> <<"flt = fn(c: bool) { while c { break } }">>],
+  [name |-> "value_in_void_fn_from", bad |-> <<"flt = fn() { from 0 to 2 { return 5 } }" \o M>>, good |-> <<"flt = fn() { from 0 to 2 { n = 5 } }">>],
+  [name |-> "value_in_void_method_if", bad |-> <<"class KV {", "	fn m(self, c: bool) {", "		if c {", "			return 5" \o M, "		}", "	}", "}", "flt = KV()">>,
+                                       good |-> <<"class KV {", "	fn m(self, c: bool) {", "		if c {", "			n = 5", "		}", "	}", "}", "flt = KV()">>],
+  \* a name that only exists as a parameter of another method of the class
+  [name |-> "unknown_name_sibling_param",
+   bad |-> <<"class KS {", "	fn other(self, zz: int) -> int {", "		return zz", "	}", "	fn go(self) -> int {", "		return zz" \o M, "	}", "}", "flt = KS()">>,
+   good |-> <<"class KS {", "	fn other(self, zz: int) -> int {", "		return zz", "	}", "	fn go(self) -> int {", "		return 1", "	}", "}", "flt = KS()">>],
   [name |-> "missing_return_path", bad |-> <<"flt = fn() -> int { if true { return 1 } }" \o M>>,
                                    good |-> <<"flt = fn() -> int { if true { return 1 } return 2 }">>],
   [name |-> "missing_return_else", bad |-> <<"flt = fn(c: bool) -> int { if c { return 1 } else { k9 = 2 } }" \o M>>,
@@ -157,6 +171,9 @@ Wrap(ctx, ls) ==
     CASE ctx \in {"module", "lib"} -> ls
       [] ctx = "fn" -> <<"wrap = fn() -> int {">> \o Indent(ls) \o <<"	return 0", "}", "wrap()">>
       [] ctx = "method" -> <<"class W {", "	fn go(self) -> int {">> \o Indent(Indent(ls)) \o <<"		return 0", "	}", "}", "wobj = W()", "wobj.go()">>
+      [] ctx = "dead_ret" -> <<"wrap = fn() -> int {", "	return 0">> \o Indent(ls) \o <<"}", "wrap()">>
+      [] ctx = "dead_break" -> <<"while true {", "	break">> \o Indent(ls) \o <<"}">>
+      [] ctx = "dead_cont" -> <<"from 0 to 2 {", "	continue">> \o Indent(ls) \o <<"}">>
       [] ctx = "elif" -> <<"one = 1", "if one == 2 {", "	one = 3", "} else if one == 1 {">> \o Indent(ls) \o <<"}">>
 Lines(bad) ==
     CASE x.kind = "typed" -> SiteLines(x.site, x.T, Sample(IF bad THEN x.S ELSE x.T))
